@@ -245,6 +245,81 @@ func checkConversions(n *sim.Net) (fp, msg string, cs convStats) {
 	return "", "", cs
 }
 
+// checkCredits is the outcome ledger of Qi->Quai conversions paid to conversion-only accounts: at
+// every head, the balance of such an account is exactly the sum of the conversion ETXs addressed
+// to it that were executed ConversionLockPeriod or more blocks ago (less the account-creation fee
+// the first time; nothing if the amount cannot cover that fee) - credited once, never early,
+// never again at a later look-back depth.
+func checkCredits(n *sim.Net, recipients []common.Address) (fp, msg string, due, deep int) {
+	zone := n.Nodes[sim.Zone]
+	zchain, err := canonicalChain(zone, sim.Zone)
+	if err != nil {
+		return "chain-broken", err.Error(), 0, 0
+	}
+	if len(zchain) == 0 {
+		return "", "", 0, 0
+	}
+	head := zchain[len(zchain)-1]
+	headNum := head.NumberU64(sim.Zone)
+	want := map[common.AddressBytes]*big.Int{}
+	exists := map[common.AddressBytes]bool{}
+	isRcpt := map[common.AddressBytes]bool{}
+	for _, r := range recipients {
+		isRcpt[r.Bytes20()] = true
+		want[r.Bytes20()] = new(big.Int)
+	}
+	byNumber := map[uint64]*types.WorkObject{}
+	for _, b := range zchain {
+		byNumber[b.NumberU64(sim.Zone)] = b
+	}
+	for _, b := range zchain {
+		num := b.NumberU64(sim.Zone)
+		if num+params.ConversionLockPeriod > headNum {
+			break
+		}
+		// credited by block num+ConversionLockPeriod, on the state of that block's parent
+		payer := byNumber[num+params.ConversionLockPeriod]
+		payerParent := byNumber[num+params.ConversionLockPeriod-1]
+		if payer == nil || payerParent == nil {
+			return "chain-broken", "canonical chain has a gap", 0, 0
+		}
+		fee := new(big.Int).Mul(new(big.Int).SetUint64(params.CallNewAccountGas(payerParent.QuaiStateSize())), big.NewInt(params.InitialBaseFee))
+		for _, etx := range b.Transactions() {
+			if etx.Type() != types.ExternalTxType || etx.EtxType() != types.ConversionType || !etx.To().IsInQuaiLedgerScope() || !isRcpt[etx.To().Bytes20()] {
+				continue
+			}
+			due++
+			if num+2*params.ConversionLockPeriod <= headNum {
+				deep++
+			}
+			amt := new(big.Int).Set(etx.Value())
+			k := etx.To().Bytes20()
+			if !exists[k] {
+				if amt.Cmp(fee) < 0 {
+					continue
+				}
+				amt.Sub(amt, fee)
+			}
+			exists[k] = true
+			want[k].Add(want[k], amt)
+		}
+	}
+	st, err := zone.Core.Processor().StateAt(head.EVMRoot(), head.EtxSetRoot(), head.QuaiStateSize())
+	if err != nil {
+		return "state", err.Error(), due, deep
+	}
+	for _, r := range recipients {
+		ia, err := r.InternalAddress()
+		if err != nil {
+			continue
+		}
+		if got := st.GetBalance(ia); got.Cmp(want[r.Bytes20()]) != 0 {
+			return "conversion-credit-ledger", fmt.Sprintf("at zone block #%d conversion-only account %x holds %v; the Qi->Quai conversions addressed to it and executed %d or more blocks ago sum to %v", headNum, r.Bytes()[:4], got, params.ConversionLockPeriod, want[r.Bytes20()]), due, deep
+		}
+	}
+	return "", "", due, deep
+}
+
 func TestC20H_History(t *testing.T) {
 	rapid.Check(t, func(t *rapid.T) {
 		// both sides of the conversion slip fork (a package variable): always-old, switch inside the history, always-new
@@ -256,9 +331,13 @@ func TestC20H_History(t *testing.T) {
 		}
 		defer n.Close()
 		a := sim.NewActor(n)
+		for _, k := range sim.QuaiKeys(10)[7:10] {
+			a.ConvRecipients = append(a.ConvRecipients, k.Addr)
+		}
 		if err := a.Prelude(); err != nil {
 			t.Fatalf("HARNESS: prelude: %v", err)
 		}
+		creditsDue, creditsDeep := 0, 0
 		dump := func() any {
 			return map[string]any{"history": a.Log, "conversion_slip_change_block": params.ConversionSlipChangeBlock}
 		}
@@ -270,6 +349,12 @@ func TestC20H_History(t *testing.T) {
 				stats.Violation(t, partH, "C20/H/"+fp, what+": "+msg, dump())
 				return false
 			}
+			fp, msg, due, deep := checkCredits(n, a.ConvRecipients)
+			if fp != "" {
+				stats.Violation(t, partH, "C20/H/"+fp, what+": "+msg, dump())
+				return false
+			}
+			creditsDue, creditsDeep = max(creditsDue, due), max(creditsDeep, deep)
 			if cs.primesWithConv >= agg.primesWithConv {
 				r := agg.regimes
 				agg = cs
@@ -310,6 +395,8 @@ func TestC20H_History(t *testing.T) {
 		add(agg.reverted > 0, "reverted")
 		add(agg.bothDirections > 0, "both_directions_in_one_prime_block")
 		add(agg.multi > 0, "two_or_more_conversions_in_one_prime_block")
+		add(creditsDue > 0, "qi2quai_credit_due")
+		add(creditsDeep > 0, "qi2quai_credit_past_second_lookback_depth")
 		for r := range agg.regimes {
 			labels = append(labels, "regime_"+r)
 		}
